@@ -141,6 +141,18 @@ CLAIMED = {
         technique="Rocq proof (invariant + refinement of an E5 reference, unbounded ids and histories) + in-Coq differential correspondence on a real handler",
         design="5/C12",
     ),
+    "C13": dict(
+        text="Theorems (Props/C13.v), for every table with unique ids and every request: the S1F4/S1F12/S2F14/S2F30/S5F6/S5F8 replies, the S2F16/S5F4 codes, the "
+             "S5F1 reports of set_alarm/clear_alarm and the new tables are those of an independent E5 reference (C13_replies_as_reference: requested items in request "
+             "order, all for an empty request, empty item for unknown ids; S5F1 exactly on set/clear changes of enabled alarms); S2F15 is all-or-nothing "
+             "(C13_s2f15_all_or_nothing), answers EAC 0 exactly when every id is known and every value is within its range, NaN excluded "
+             "(C13_s2f15_accepts_iff_valid: the 'last error wins' loop as written against E5's condition), and after any history no constant is outside its declared "
+             "min/max (C13_ec_in_range, invariant over all histories). Tied to the code by driving a real equipment handler and comparing replies and tables.",
+        note=NOTE_COMMON + " Outside the modelled domain: values of a type other than the constant's (accepted by the library and fatal for later S2F13 - noted in DESIGN.md), "
+             "the predefined SVIDs 1001-1005 / ECIDs 1-2 with their special cases, unknown ALIDs in S5F5 (the library aborts). The model is hand-written.",
+        technique="Rocq proof (refinement of an E5 reference + invariant over histories, unbounded ids/values) + in-Coq differential correspondence on a real handler",
+        design="5/C13",
+    ),
 }
 
 NOT_YET = {}
